@@ -382,7 +382,164 @@ def _classify(hist, bad):
     return 'stale-derived:%s:%s' % (c, views)
 
 
-HARNESSES = [Derived()]
+ALG = 'pyphysim.ia.algorithms'
+
+
+class SolveStructure(Harness):
+    """One iteration of a real iterative solver (MinLeakageIASolver; symbolic
+    channel, RNG stub, eig of the Hermitian interference covariance as a
+    contract stub): whatever the iteration produced, the solution is
+    structurally valid -- requested power adopted, unit-norm precoders, power
+    met exactly, receive filters invert the own effective channel, stream
+    counts -- also when solve() is called again with another power and
+    initialize_with = 'fix' / 'random'."""
+    name = 'solve-structure'
+    modules = (ALG, IAB, MU, MISC, CONV)
+    functions = (ALG + ':IterativeIASolverBaseClass.solve',
+                 ALG + ':IterativeIASolverBaseClass._solve_init',
+                 ALG + ':IterativeIASolverBaseClass._initialize_F_randomly_and_find_W',
+                 ALG + ':IterativeIASolverBaseClass._dont_initialize_F_and_only_and_find_W',
+                 ALG + ':IterativeIASolverBaseClass._step',
+                 ALG + ':MinLeakageIASolver._updateF',
+                 ALG + ':MinLeakageIASolver._updateW',
+                 ALG + ':MinLeakageIASolver._calc_Uk_all_k',
+                 ALG + ':MinLeakageIASolver._calc_Uk_all_k_rev',
+                 IAB + ':IASolverBaseClass.calc_Q',
+                 IAB + ':IASolverBaseClass.calc_Q_rev', MISC + ':leig')
+    bounds = ('MinLeakageIASolver, K=2, Nr=Nt=2, one stream, max_iterations=1; '
+              'histories: solve(P1) | solve(P1); initialize_with=fix|random; '
+              'solve(P2)')
+    stubs = ('np.linalg.eig of a Hermitian matrix -> real eigenvalues, unitary '
+             'eigenvectors (contract)', 'solver RNG -> symbolic stub',
+             '_is_diff_significant (convergence test) -> True',
+             'argsort of the symbolic eigenvalues forks lazily (no feasibility '
+             'query)')
+    assumptions = ('equivalent direct channel non-zero', 'floats as reals',
+                   'the eig stub returns distinct eigenvalues in ascending '
+                   'order (numpy promises no order; the code sorts them)')
+    outside = ('what the iteration converges to (alignment, monotone leakage)',
+               'the other solvers (alternating minimisation needs the same '
+               'machinery; max-SINR / MMSE / closed form use inverses and '
+               'non-Hermitian eigenproblems)')
+    div_mode = 'assume'
+    reach = 'concrete'
+    exact_const_sqrt = True
+    builtins = {k: v for k, v in BUILTINS.items() if k != 'int'}
+    unit_wall_s = {'quick': 300, 'thorough': 1800}
+
+    def configs(self, tier):
+        return [dict(K=2, hist='single'), dict(K=2, hist='fix'),
+                dict(K=2, hist='random')]
+
+    def _run(self, cfg, mk, alg):
+        mu = repo_module(MU)
+        K = cfg['K']
+        Nr, Nt = [2] * K, [2] * K
+        H = mk.cmat('H', (sum(Nr), sum(Nt)))
+        ch = mu.MultiUserChannelMatrix()
+        ch.init_from_channel_matrix(H, np.array(Nr), np.array(Nt), K)
+        sol = alg.MinLeakageIASolver(ch)
+        sol._rs = _StubRS(mk.rng)
+        sol.max_iterations = 1
+        P1 = mk.pos('p1')
+        sol.solve(1, P1)
+        want = P1
+        if cfg['hist'] != 'single':
+            sol.initialize_with = cfg['hist']
+            P2 = mk.pos('p2')
+            sol.solve(1, P2)
+            want = P2
+        return H, sol, want
+
+    def sym(self, ctx, cfg):
+        ctx.lazy_decide = True
+        ctx.cdiv_mode = 'atom'
+        ctx.norm_positive = True
+        ctx.eig_sorted = True
+        ctx.norm_unit_check = True
+        alg = repo_module(ALG)
+
+        class Mk:
+            rng = None
+
+            @staticmethod
+            def cmat(name, shape):
+                return sym_array(ctx, name, shape, kind='complex')
+
+            @staticmethod
+            def pos(name):
+                return ctx.real(name, positive=True)
+
+        old = alg.IterativeIASolverBaseClass._is_diff_significant
+        alg.IterativeIASolverBaseClass._is_diff_significant = classmethod(
+            lambda cls, a, b, c=1e-3: True)
+        try:
+            H, sol, want = self._run(cfg, Mk, alg)
+        finally:
+            alg.IterativeIASolverBaseClass._is_diff_significant = old
+        K = cfg['K']
+        d_p, d_unit, d_full, d_pow, d_eq = [], [], [], [], []
+        fullF = sol.full_F
+        for k in range(K):
+            d_p.append(np.array([sol.P[k] - want], dtype=object))
+            n2 = _norm(sol.F[k], lambda t: t)
+            d_unit.append(np.array([n2 - 1], dtype=object))
+            d_full.append(fullF[k] - sol.F[k] * want.sqrt())
+            d_pow.append(np.array([_norm(fullF[k], lambda t: t) - want],
+                                  dtype=object))
+            Hkk = H[2 * k:2 * k + 2, 2 * k:2 * k + 2]
+            eq = np.dot(sol.full_W_H[k], np.dot(Hkk, fullF[k]))
+            d_eq.append(eq - np.eye(1))
+            assert sol.F[k].shape == (2, 1) and int(sol.Ns[k]) == 1
+        for name, d in (('P=requested', d_p), ('F-unit-norm', d_unit),
+                        ('full_F=F*sqrt(P)', d_full), ('||full_F||^2=P', d_pow),
+                        ('full_W_H*Hkk*full_F=I', d_eq)):
+            rec = prove_zero(ctx, '%s[%s]' % (name, cfg['hist']), d, rounds=2,
+                             fallback_exact=False)
+            if rec['status'] != 'unsat':
+                rec['status'] = 'sat'
+
+    def _numeric(self, cfg, rng):
+        alg = repo_module(ALG)
+
+        class Mk:
+            pass
+        Mk.rng = rng
+        Mk.cmat = staticmethod(lambda name, shape: crandn(rng, *shape))
+        Mk.pos = staticmethod(lambda name: rng.uniform(0.2, 3.0))
+        H, sol, want = self._run(cfg, Mk, alg)
+        bad = []
+        for k in range(cfg['K']):
+            if abs(sol.P[k] - want) > 1e-12:
+                bad.append('P!=requested')
+            if abs(np.linalg.norm(sol.F[k]) - 1) > 1e-9:
+                bad.append('F-not-unit-norm')
+            if abs(np.linalg.norm(sol.full_F[k])**2 - want) > 1e-9 * want:
+                bad.append('power-not-met')
+            Hkk = H[2 * k:2 * k + 2, 2 * k:2 * k + 2]
+            if abs((sol.full_W_H[k] @ Hkk @ sol.full_F[k]).item() - 1) > 1e-8:
+                bad.append('filter-does-not-invert')
+        return sorted(set(bad))
+
+    def replay(self, cfg, name, model):
+        import random
+        for seed in range(8):
+            bad = self._numeric(cfg, random.Random(seed))
+            if bad:
+                return dict(reproduced=True,
+                            key='C10/solve/%s:%s' % (cfg['hist'],
+                                                     '+'.join(bad)),
+                            detail=dict(seed=seed, cfg=cfg, bad=bad))
+        return dict(reproduced=False, key=None, detail='no witness')
+
+    def concrete(self, cfg, rng):
+        for _ in range(4):
+            bad = self._numeric(cfg, rng)
+            assert not bad, bad
+        return 4
+
+
+HARNESSES = [Derived(), SolveStructure()]
 
 MANIFEST = dict(
     category='model_checking',
